@@ -170,7 +170,7 @@ let parse_op (ws : string list) : map_op =
   | "dropmap" -> OpDropMap
   | "par_iter" | "par_keys" | "par_values" -> OpIter
   | "par_iter_mut" | "par_values_mut" -> OpRetain ([], z 2)          (* keep list is filled in by the caller *)
-  | "into_par_iter" | "intoiter" | "intokeys" | "intovalues" -> OpDrain (nat_of_int 0)
+  | "into_par_iter" | "intoiter" | "intokeys" | "intovalues" | "intoiterfold" | "intokeysfold" | "intovaluesfold" | "drainfold" -> OpDrain (nat_of_int 0)
   | "par_drain" -> OpDrain (nat_of_int 0)                            (* count filled in by the caller *)
   | "par_extend" -> OpExtend (List.map parse_kv3 (rest 2))
   | "par_split" -> OpLen
@@ -418,7 +418,7 @@ let capacity_oracles (say : string -> unit) (where : string) (gw : int) (tsize :
   (match opname, argn 1 with
    | ("withcap" | "twithcap"), Some n when Z.eqb n Z0 && normal -> if post.d_alloc <> "-" then say (Printf.sprintf "K-FAIL %s: with_capacity(0) allocated" where)
    | _ -> ());
-  if List.mem opname ["clear"; "tclear"; "drain"; "tdrain"] && normal && pre.d_alloc <> post.d_alloc then
+  if List.mem opname ["clear"; "tclear"; "drain"; "tdrain"; "drainfold"] && normal && pre.d_alloc <> post.d_alloc then
     say (Printf.sprintf "K-FAIL %s: %s changed the allocation: [%s] -> [%s]" where opname pre.d_alloc post.d_alloc);
   if List.mem opname ["allocsize"; "tallocsize"] && ret_s <> Printf.sprintf "num %d" (alloc_size post) then
     say (Printf.sprintf "K-FAIL %s: allocation_size() = [%s] but the table holds a block of %d bytes" where ret_s (alloc_size post));
@@ -435,7 +435,7 @@ let capacity_oracles (say : string -> unit) (where : string) (gw : int) (tsize :
      if len = 0 && m = 0 && post.d_alloc <> "-" then say (Printf.sprintf "K-FAIL %s: shrinking an empty collection to 0 kept the allocation" where);
      if not (len = 0 && m = 0) && m < max_int then begin
        match capacity_to_buckets (zi gw) (zi (max 1 (max len m))) tsize calign with
-       | Some b -> if post.d_mask + 1 > zint b && post.d_mask + 1 < pre.d_mask + 1 + 0 * 0 || (post.d_mask + 1 > zint b && post.d_mask <> pre.d_mask) then
+       | Some b -> if post.d_mask + 1 > zint b && post.d_mask > 0 then
            say (Printf.sprintf "K-FAIL %s: after shrink_to the table has %d buckets, a fresh with_capacity(%d) would have %s" where (post.d_mask + 1) (max len m) (string_of_z b))
        | None -> ()
      end
@@ -903,7 +903,7 @@ let () =
          if big then bump branch "table_too_big_to_dump";
          let do_b = do_b && not big and do_c = do_c && not big and do_a = do_a && not big in
          let is_serde = String.length opname >= 6 && String.sub opname 0 6 = "serde_" in
-         let is_par = (String.length opname >= 4 && String.sub opname 0 4 = "par_") || opname = "into_par_iter" || List.mem opname ["intoiter"; "intokeys"; "intovalues"] || is_serde || opname = "getmanymut"
+         let is_par = (String.length opname >= 4 && String.sub opname 0 4 = "par_") || opname = "into_par_iter" || List.mem opname ["intoiter"; "intokeys"; "intovalues"; "intoiterfold"; "intokeysfold"; "intovaluesfold"] || is_serde || opname = "getmanymut"
                       || opname = "from_par_iter" || List.mem opname ["spar_iter"; "sinto_par_iter"; "spar_drain"; "spar_extend"] in
          let own_rule = opname = "from_par_iter" || opname = "par_eq" in
          if opname = "serde_de" then
@@ -988,7 +988,7 @@ let () =
             delivery order is the scheduler's choice, so there is no step model for them *)
          let op = (match opname, op0 with
            | ("par_iter_mut" | "par_values_mut"), OpRetain (_, add) -> OpRetain (List.map (fun (e : kv) -> e.k_id) (occupants tpre), add)
-           | "par_drain", _ | "into_par_iter", _ | "spar_drain", _ | "sinto_par_iter", _ | "intoiter", _ | "intokeys", _ | "intovalues", _ ->
+           | "par_drain", _ | "into_par_iter", _ | "spar_drain", _ | "sinto_par_iter", _ | "intoiter", _ | "intokeys", _ | "intovalues", _ | "intoiterfold", _ | "intokeysfold", _ | "intovaluesfold", _ | "drainfold", _ ->
              (match parse_out ret_s with Some (OutList l) -> OpDrain (nat_of_int (List.length l)) | _ -> op0)
            | _ -> op0) in
          if chk_s <> "ok" then say "H-FAIL %s: harness check: %s" where chk_s;
